@@ -4879,8 +4879,8 @@ impl GraphEngine {
         visited.insert(from);
 
         while let Some(current) = queue.pop_front() {
-            // Collect edges from both outgoing and incoming lists to support
-            // undirected graphs and paths that traverse incoming edges.
+            // Collect edges from both outgoing and incoming lists; an incoming
+            // edge is followed only when it is undirected.
             let out_edges = self.get_edge_list(&Self::outgoing_edges_key(current));
             let in_edges = self.get_edge_list(&Self::incoming_edges_key(current));
 
@@ -4902,10 +4902,10 @@ impl GraphEngine {
 
                     let neighbor = if edge.from == current {
                         edge.to
-                    } else if edge.to == current {
+                    } else if !edge.directed && edge.to == current {
                         edge.from
                     } else {
-                        continue;
+                        continue; // Can't traverse directed edge backwards
                     };
 
                     // Apply node filter to neighbor (except target which we always want to reach)
